@@ -271,6 +271,110 @@ def _large_branched(rng, band, shape, numbering, api):
     return {"class": f"large-{band}/{shape}/{numbering}/{api}", "n": n, "pids": pids, "root": root, "api": api, "big": True}
 
 
+# ---- "any shape, depth up to 10^5" x "all start nodes": DEEP trees traversed from a start node at every relative depth. Trees of
+# three size bands (hundreds / thousands / tens of thousands of nodes, sizes drawn log-uniformly) whose depth is of the order of their
+# size (a neurite: long, nearly unbranched) next to bushy ones of the same size; the start node near the top, in the middle, near the
+# tip of the longest root path, or off it; every numbering; all three entry points. What lies below the start node is then anything
+# from a handful of nodes to nearly the whole depth of the tree, while n - |subtree| is anything from 1 to nearly n.
+DEEP_SHAPES = ["chain", "chain+twigs", "comb", "spine", "fork", "bush-on-stem", "stem-under-bush"]
+START_BANDS = ["child-of-root", "top", "quarter", "middle", "near-tip", "tip", "off-path"]
+NUMBERINGS = ["sorted", "root0", "descending"]
+
+
+def _deep_shape(rng, n, shape):
+    """a parent array (pid[i] < i) of n nodes whose depth is a fixed share of n"""
+    if shape == "chain+twigs":                      # a long neurite carrying a few short side twigs
+        m = max(2, n - rng.randint(1, max(1, n // 20)))
+        p = [-1] + list(range(m - 1))
+        while len(p) < n:
+            at = rng.randrange(m)
+            for _ in range(min(rng.randint(1, 3), n - len(p))):
+                p.append(at); at = len(p) - 1
+        return p
+    if shape == "comb":                             # every spine node also carries a tip
+        return ([-1] + [v for k in range(1, n // 2 + 1) for v in (2 * (k - 1), 2 * (k - 1))])[:n]
+    if shape == "spine":                            # caterpillar whose spine takes most of the nodes
+        p, spine = [-1], [0]
+        for i in range(1, n):
+            if rng.random() < 0.9:
+                p.append(spine[-1]); spine.append(i)
+            else:
+                p.append(spine[rng.randrange(len(spine))])
+        return p
+    if shape == "fork":                             # a stem that splits into two long neurites
+        a = rng.randint(1, max(1, n // 3)); b = a + (n - a) // 2
+        return [-1] + [a - 1 if i == b else i - 1 for i in range(1, n)]
+    if shape == "bush-on-stem":                     # long unbranched stem, a random bush at its far end
+        m = max(1, int(n * rng.uniform(0.5, 0.9)))
+        return [-1] + list(range(m - 1)) + [rng.randint(m - 1, i - 1) for i in range(m, n)]
+    if shape == "stem-under-bush":                  # a random bush; one long neurite hangs from one of its nodes
+        k = max(1, int(n * rng.uniform(0.1, 0.5)))
+        p = [-1] + [rng.randint(0, i - 1) for i in range(1, k)]
+        return p + [rng.randrange(k)] + list(range(k, n - 1)) if n > k else p
+    return gen.parents_sorted(rng, n, shape)        # chain, and the bushy shapes of gen
+
+
+def _start_depth_case(rng, lo, hi, shape, numbering, band, api):
+    n = int(round(lo * (hi / lo) ** rng.random()))
+    pids = _deep_shape(rng, n, shape)
+    n = len(pids)
+    depth = [0] * n
+    for i in range(1, n):
+        depth[i] = depth[pids[i]] + 1
+    tip = max(range(n), key=depth.__getitem__)
+    path = [tip]                                    # the longest root path, tip first
+    while pids[path[-1]] >= 0:
+        path.append(pids[path[-1]])
+    path.reverse()
+    D = len(path) - 1
+    if band == "off-path":
+        on = set(path)
+        off = [i for i in range(n) if i not in on]
+        root = rng.choice(off) if off else path[min(1, D)]
+    else:
+        d = {"child-of-root": 1, "top": rng.randint(1, max(1, D // 50)), "quarter": rng.randint(D // 8, max(D // 8, D // 3)),
+             "middle": rng.randint(D // 3, max(D // 3, 2 * D // 3)), "near-tip": rng.randint(D - min(D, max(1, D // 50)), D),
+             "tip": D}[band]
+        root = path[min(d, D)]
+    if numbering != "sorted":
+        perm = list(range(1, n))
+        if numbering == "root0":
+            rng.shuffle(perm)
+        else:                                       # "descending": every child has a smaller id than its parent (but the root, 0)
+            perm.reverse()
+        perm = [0] + perm
+        new = [0] * n
+        for old, p in enumerate(pids):
+            new[perm[old]] = -1 if p == -1 else perm[p]
+        pids, root = new, perm[root]
+    mag = f"n~10^{len(str(n)) - 1}"
+    return {"class": f"startdepth/{mag}/{shape}/{numbering}/{band}/{api}", "n": n, "pids": pids, "root": root, "api": api,
+            "big": n > 400, "depth": D}
+
+
+def _start_depths(rng, quick):
+    """Every start band x every entry point in every size band (quick, largest band: every start band once, the entry points in
+    turn); deep shapes, numberings and
+    the bushy contrast shapes drawn in turn from shuffled decks, so that every run has each of them several times."""
+    out = []
+    decks = {}
+
+    def draw(name, items):
+        if not decks.get(name):
+            decks[name] = list(items); rng.shuffle(decks[name])
+        return decks[name].pop()
+
+    apis = ["tree", "node", "swc_utils"]
+    bands = [(150, 1500, 1), (1500, 12000, 1), (12000, 60000 if quick else 100000, 3 if quick else 1)]
+    for lo, hi, thin in bands:
+        for _ in range(1 if quick else 3):
+            for band in START_BANDS:
+                for api in (apis if thin == 1 else [draw("api", ["tree", "node", "tree", "node", "swc_utils"])]):
+                    shape = draw("shape", DEEP_SHAPES) if rng.random() < 0.85 else draw("bushy", ["random", "binary", "caterpillar", "stem"])
+                    out.append(_start_depth_case(rng, lo, hi, shape, draw("num", NUMBERINGS), band, api))
+    return out
+
+
 def _small_tree(rng, nmin=1):
     n = max(nmin, rng.choice([1, 2, 3, 4, 6, 9, 14, 25, 60, 100]))
     pids = gen.parents_sorted(rng, n, gen.pick_shape(rng, rng.randrange(len(gen.SHAPES))))
@@ -459,6 +563,7 @@ class Trav(Suite):
             out.append({"class": f"edited/{rng.choice(['tree', 'node'])}", "n": nn, "pids": post, "pre_pids": pre, "edit": [i, q],
                         "root": root, "api": rng.choice(["tree", "node"]), "esig": rng.choice(STYLES), "lsig": rng.choice(STYLES)})
         out.extend(_families(rng, tier == "quick" and not widen))
+        out.extend(_start_depths(rng, tier == "quick" and not widen))
         # deeply NESTED furcations (a comb: every spine node also carries a tip): depth of the furcation nesting,
         # not only of the chain, must not be bounded by the interpreter's recursion limit
         m = 3000 if tier == "quick" and not widen else 20000
